@@ -5474,6 +5474,11 @@ MORE_IN_SET:
         id = (int32) * p++;
 oid_parsing_done:
         /* Done with OID parsing */
+        if (dnEnd - p < 1)
+        {
+            /* the OID is the last thing in the DN: no value follows */
+            return PS_LIMIT_FAIL;
+        }
         stringType = (int32) * p++;
 
         if (getAsnLength(&p, (uint32) (dnEnd - p), &llen) < 0 ||
